@@ -420,11 +420,26 @@ func Check[C any](t *testing.T, check string, n int, gen func(*rapid.T) C, run f
 			Violation(check, lastF, lastC)
 		}
 	}()
+	// rapid's own shrink time limit is only looked at between shrink passes; with cases that take
+	// seconds when they fail (a watchdog has to expire) a pass can run for minutes. Once the
+	// budget is used up every further candidate is answered "passes" without being run, which ends
+	// the shrinking with the last case that really failed.
+	var firstFail time.Time
+	budget := 20 * time.Second
+	if d, err := time.ParseDuration(os.Getenv("VERIF_SHRINKTIME")); err == nil && d > 0 {
+		budget = d
+	}
 	rapid.Check(t, func(rt *rapid.T) {
 		c := gen(rt)
+		if !firstFail.IsZero() && time.Since(firstFail) > budget {
+			return
+		}
 		Eval()
 		f := filter(run(c))
 		if f != nil {
+			if firstFail.IsZero() {
+				firstFail = time.Now()
+			}
 			lastC, lastF = c, f
 			rt.Fatalf("[%s] %s", f.Class, f.Msg)
 		}
